@@ -412,6 +412,55 @@ PROPS["C12"] = dict(
                 "cookie parser, content_length, date, _build_url; bounded: fuzzing of all entry points incl. JSON/form/multipart.",
 )
 
+PROPS["C01"] = dict(
+    modules=["common", "c01"],
+    contracts=["multipart.twins", "MultipartDecoder.last_newline", "parse_stream"],
+    no_refute=["multipart.twins"],
+    refute={"quick": [2], "thorough": [1, 2]},
+    native="c01",
+    level="other",
+    trusted=["A-py-1", "A-solver", "A-pyvc"],
+    level_text="Mostly BOUNDED, and said so: the heart of the property - the DATA branch never emits a byte of a delimiter that a later "
+               "chunk completes and never withholds one for ever - is a statement about Python's leftmost regex search over a "
+               "growing buffer with a symbolic boundary, which neither z3 nor cvc5 decides and which a hand-written induction "
+               "would turn into a model of the decoder. It is checked on the real decoder over enumerated contents (every "
+               "string up to length 3-4 over {CR, LF, '-', boundary byte, x}) x boundaries x every chunking up to 2-3 cuts, "
+               "through the event decoder, both stream helpers and both Request.form. PROVED beside it: parse_async_stream is "
+               "parse_stream after await-erasure and the declared renamings (AST identity, also for Request.form and "
+               "_parse_multipart of both interfaces), so chunking behaviour of the helpers is identical by construction; "
+               "last_newline returns the earlier of the last CR and the last LF, or len(buffer); parse_stream's event loop "
+               "produces one item per completed part, relative to the decoder's event contract.",
+    level_note="Trusted: the decoder's event grammar as a ghost script (A-decoder-events); bytearray.rindex (A-bytes); re semantics; "
+               "SpooledTemporaryFile. The decoder exactness / chunking independence clause is bounded only.",
+    technique="bounded exhaustive enumeration on the real decoder (labelled), beside deductive lemmas: AST identity of the sync/async helpers, last_newline contract, helper event loop against the decoder's event contract",
+    explanation="bounded: decoder exactness and chunking independence (enumerated contents x chunkings); proved: helper twins are the "
+                "same program, last_newline, one item per part in parse_stream.",
+)
+
+PROPS["C15"] = dict(
+    modules=["common", "c01"],
+    contracts=["parse_stream", "multipart.twins", "MultipartDecoder.last_newline"],
+    no_refute=["multipart.twins"],
+    refute={"quick": [2], "thorough": [1, 2]},
+    native="c15",
+    level="other",
+    trusted=["A-py-1", "A-solver", "A-pyvc"],
+    level_text="Mixed. PROVED (relative to the decoder's event contract, for event scripts of any length and any chunk list): the "
+               "helper's two counters equal the number of completed parts and the total size of non-file field data consumed so "
+               "far (loop invariant over both nested loops); it returns normally only with both totals within their limits, and "
+               "raises 413 exactly at the event that pushes a total over its limit (parts == max+1, or field bytes > limit while "
+               "they were <= limit before that event); the totals are sums of lengths, hence independent of how Data events are "
+               "split; the async helper is the same program (AST lemma). BOUNDED (labelled): 413 exactness end-to-end around "
+               "the exact totals (-1, 0, +1) x chunkings on both helpers, and the buffering bound monitored on the real decoder.",
+    level_note="Trusted: the decoder's event grammar (A-decoder-events). Known finding (open): the buffering bound does not hold - "
+               "a part whose data contains a lone CR or LF followed by a long run without a line break is buffered whole (the "
+               "hold-back starts at the earlier of the last CR and the last LF); shape of Werkzeug CVE-2023-46136; a correct "
+               "repair rewrites the hold-back computation and is not small.",
+    technique="deductive verification: ghost accounting + loop invariants on the real helper against the decoder's event contract, AST identity lemma for the async twin, SMT; bounded limit grid and buffer monitor",
+    explanation="proved: limit exactness of parse_stream (and by identity parse_async_stream); bounded: end-to-end 413 grid, buffer bound "
+                "(known finding).",
+)
+
 NOT_APPLICABLE = {
     "C06": "quantifies over schedules/interleavings (relay thread vs consumer vs closer, asyncio tasks vs ping timer) and is a "
            "bounded-liveness claim; contracts over a sequential, await-erased semantics cannot express an interleaving and "
